@@ -13,6 +13,17 @@ Correspondence: every method of the two trace-class families on generated traces
 Counts are integers, so probabilities are compared exactly (`float(k/N)`); float sums at rel 1e-9; ties of
 `argsort` / `argmax` as sets; thresholds closer than 1e-9 to a compared value are counted, not compared.
 
+Program level (`cli_part`): `mchap assemble`, `call` and `call-pedigree` run on a synthetic data set with
+`DenovoMCMC.fit` / `CallingMCMC.fit` / `PedigreeCallingMCMC.fit` wrapped by a recorder (which keeps the FULL trace and in
+three of four runs substitutes a synthetic trace: chains that agree during the burn-in and differ afterwards, the reverse,
+random) and `LocusAssemblyData.format_vcf_record` wrapped to read the internal values; for --mcmc-burn in {0, 10, 30, 39
+of 40, 32 of 64} x 1..3 chains x incongruence thresholds the GT / GPM / SPM / MCI / AFP / ACP / AOP / GP of every sample
+column (internal value and printed text) are recomputed from the recorded trace minus exactly `burn` steps per chain.
+
+Further unit streams: traces of 600-1100 steps dominated by one genotype (counts above 255), assemble traces without
+variable positions, large haplotype panels at ploidy 3-4 (model on rank-compressed alleles), every summary of relabelled
+traces (labels up to 199), pedigree traces of up to 9 samples / ploidy 1..8 / allele numbers up to 199 / all integer widths.
+
 Implementation oracles (independent of the model): the empirical distribution over multisets computed with
 `collections.Counter` from the raw array; expected allele counts / occurrence from the raw steps; the VCF index by
 the closed formula with `math.comb`; the documented meaning of the incongruence flag (0 = at most one distinct
@@ -60,7 +71,9 @@ RULE = ("cases: one per (trace, burn-in) with 1..4 chains, 1..60 steps, ploidy 1
         "(allele pools of 2..5), per-chain dominant genotypes so that genotypes repeat and chains agree / disagree, within-step "
         "orderings shuffled, every burn-in 0..steps (steps = nothing retained: error branch), thresholds {0.6, 0.5, 0.75, 0.3, 0, 1, "
         "k/retained}; plus structured chains with prescribed mode supports (sizes 1..ploidy, unions below / at / above the ploidy, "
-        "both chain orders). Non-trivial: >= 2 distinct retained genotypes and some retained step stored in non-canonical order "
+        "both chain orders); long traces (one genotype > 255 times), n_base = 0, panels of 70-200 alleles at ploidy 1-4, relabelled traces, "
+        "pedigree traces of 1..9 samples; program level: every sample column of assemble / call / call-pedigree runs with recorded "
+        "(real or substituted) sampler traces x burn-in x chains x threshold. Non-trivial: >= 2 distinct retained genotypes and some retained step stored in non-canonical order "
         "(assemble) / >= 2 distinct retained genotypes (call). Distinct by request line.")
 
 SIG_F10 = "C14/assemble/replicate_incongruence-ploidy"
@@ -493,8 +506,17 @@ def call_request(burn, thr, n_allele, chains, ploidy):
     return " ".join(toks)
 
 
-def run_call_trace(chk, drv, r, chains, n_allele, ploidy, burns, sorted_rows, tag, Trace, thr_override=None):
+def run_call_trace(chk, drv, r, chains, n_allele, ploidy, burns, sorted_rows, tag, Trace, thr_override=None, compress=False):
+    """`compress`: the Lean model is asked about the same trace with the used alleles renamed 0..k-1 in increasing order (a strictly
+    increasing renaming commutes with every summary); used for large panels at ploidy >= 3, where the G-ordered array of the model
+    would have millions of entries.  The implementation always sees the real allele numbers."""
     n_chains, n_steps = len(chains), len(chains[0])
+    amap = sorted({a for ch in chains for g in ch for a in g}) if compress else None
+    rank = {a: i for i, a in enumerate(amap)} if compress else None
+    m_chains = [[[rank[a] for a in g] for g in ch] for ch in chains] if compress else chains
+    m_n_allele = len(amap) if compress else n_allele
+    un = (lambda g: tuple(amap[a] for a in g)) if compress else (lambda g: g)
+    p_all = lambda t: un(p_alleles(t))
     # the samplers store allele indices as int32 / int64; int8 only fits panels of at most 128 haplotypes
     arr = np.array(chains, dtype=r.choice([np.int8, np.int16, np.int64] if n_allele <= 127 else [np.int16, np.int32, np.int64]))
     trace0 = Trace(arr, np.zeros((n_chains, n_steps)), n_allele)
@@ -503,7 +525,7 @@ def run_call_trace(chk, drv, r, chains, n_allele, ploidy, burns, sorted_rows, ta
     reqs, meta = [], []
     for burn in burns:
         for thr in (thr_override or thresholds(r, n_steps - burn)):
-            reqs.append(call_request(burn, thr, n_allele, chains, ploidy))
+            reqs.append(call_request(burn, thr, m_n_allele, m_chains, ploidy))
             meta.append((burn, thr))
             if burn == n_steps:
                 break
@@ -511,7 +533,7 @@ def run_call_trace(chk, drv, r, chains, n_allele, ploidy, burns, sorted_rows, ta
     seen_burn = set()
 
     def one(burn, thr, req, ans):
-        case = {"family": "call", "chains": chains, "burn": burn, "threshold": thr, "ploidy": ploidy, "n_allele": n_allele,
+        case = {"family": "call", "chains": chains if n_steps * n_chains <= 400 else "long trace: see request", "burn": burn, "threshold": thr, "ploidy": ploidy, "n_allele": n_allele,
                 "sorted_rows": sorted_rows, "tag": tag}
         sec = ans.split(";")
         if ans == "bad-op" or len(sec) != 7:
@@ -532,7 +554,7 @@ def run_call_trace(chk, drv, r, chains, n_allele, ploidy, burns, sorted_rows, ta
             if t.genotypes.shape[1] != n_steps - burn or not np.array_equal(t.genotypes, arr[:, burn:]) or t.n_allele != n_allele:
                 chk.violation("burn(n) does not remove exactly the first n steps of every chain", case, "C14/call/burn")
             d_impl = dict(impl_post)
-            m_post = p_dist(sec[0], p_alleles)
+            m_post = p_dist(sec[0], p_all)
             d_model = dict(m_post)
             if set(d_model) != set(d_impl) or any(not exact_eq(d_impl[g], d_model[g]) for g in d_model) \
                     or [float(p) for _, p in m_post] != [p for _, p in impl_post]:
@@ -568,7 +590,7 @@ def run_call_trace(chk, drv, r, chains, n_allele, ploidy, burns, sorted_rows, ta
             tops, mx, _ = top_keys(expected)
             if sorted_rows and (mg not in tops or not exact_eq(mp, mx)):
                 chk.violation("mode() is not a genotype of maximal posterior probability", {**case, "impl": [mg, float(mp)]}, "C14/call/mode")
-            mm = p_entry(sec[1], p_alleles)
+            mm = p_entry(sec[1], p_all)
             if mm is None or not exact_eq(mp, mm[1]) or (len(tops) == 1 and mm[0] != mg):
                 chk.disagreement("call mode() != model", {**case, "impl": [mg, float(mp)], "model": sec[1]})
             g2, p2, spm = post.mode(genotype_support=True)
@@ -592,7 +614,7 @@ def run_call_trace(chk, drv, r, chains, n_allele, ploidy, burns, sorted_rows, ta
             else:
                 # unsorted rows: the support key is the first-occurrence order of the row — only the mirror is compared
                 unambiguous = False
-            me = p_entry(sec[2], p_alleles)
+            me = p_entry(sec[2], p_all)
             if unambiguous:
                 if me is None or me[0] != g2 or not exact_eq(p2, me[1]) or not C.close(spm, float(C.parse_rat(sec[3]))):
                     chk.disagreement("call mode(genotype_support=True) != model", {**case, "impl": [g2, p2, spm], "model": sec[2] + ";" + sec[3]})
@@ -614,6 +636,11 @@ def run_call_trace(chk, drv, r, chains, n_allele, ploidy, burns, sorted_rows, ta
                 chk.disagreement("model callFrequencies answered error", case)
             else:
                 mf = [tuple(C.parse_rat(x) for x in e.split(",")) for e in sec[4].split()]
+                if compress and len(mf) == len(amap):
+                    full = [(Fraction(0), Fraction(0), Fraction(0))] * n_allele
+                    for i_, a_ in enumerate(amap):
+                        full[a_] = mf[i_]
+                    mf = full
                 if len(mf) != n_allele or any(
                         not C.close(float(fr[a]), float(mf[a][0])) or not exact_eq(co[a], mf[a][1]) or not exact_eq(oc[a], mf[a][2])
                         for a in range(n_allele)):
@@ -622,13 +649,16 @@ def run_call_trace(chk, drv, r, chains, n_allele, ploidy, burns, sorted_rows, ta
             if sorted_rows:
                 ga = post.as_array(n_allele)
                 size = math.comb(n_allele + ploidy - 1, ploidy)
-                exp_arr = [Fraction(0)] * size
-                for g, p in expected.items():
-                    exp_arr[vcf_index(g)] = p
-                if len(ga) != size or any(not exact_eq(ga[i], exp_arr[i]) for i in range(size)) or not C.close(float(np.sum(ga)), 1.0):
+                exp_sparse = {vcf_index(g): p for g, p in expected.items()}
+                nz = [int(i) for i in np.flatnonzero(ga)]
+                if len(ga) != size or set(nz) != set(exp_sparse) or any(not exact_eq(ga[i], exp_sparse[i]) for i in nz) \
+                        or not C.close(float(np.sum(ga)), 1.0):
                     chk.violation("as_array: entry at the VCF index of g is not P(g) / other entries not 0 / sum not 1",
-                                  {**case, "impl": ga.tolist()}, "C14/call/as-array")
-                if sec[5] == "error":
+                                  {**case, "impl_nonzero": {i: float(ga[i]) for i in nz[:50]}, "expected": {k: str(v) for k, v in exp_sparse.items()}},
+                                  "C14/call/as-array")
+                if compress:
+                    chk.count("call:as-array-model-skipped(compressed alleles)")
+                elif sec[5] == "error":
                     chk.disagreement("model asArray answered error", case)
                 else:
                     ma = [C.parse_rat(x) for x in sec[5].split()]
@@ -729,6 +759,162 @@ def run_ped(chk, drv, r, n_cases, PedTrace):
         b = ind.burn(burn).genotypes
         if not np.array_equal(a, b) or a.shape[1] != arr.shape[1] - burn:
             chk.violation("pedigree burn(n) and individual() do not commute / burn is not exact", {**case, "burn": burn}, "C14/pedigree/burn")
+
+
+def run_asm_nobase(chk, r, n_cases, GenotypeMultiTrace):
+    """assemble traces of a locus without variable positions (n_base = 0): every step is the same (empty) genotype.
+    The Lean driver has no encoding for haplotypes of length 0, so only the oracles are evaluated."""
+    for _ in range(n_cases):
+        n_chains, n_steps, ploidy = r.randint(1, 4), r.choice([1, 2, 5, 40]), r.choice([1, 2, 3, 4, 6])
+        burn = r.randrange(n_steps)
+        thr = r.choice([0.6, 0.0, 1.0])
+        chk.count("asm:n_base=0")
+        chk.case(["asm-nobase", n_chains, n_steps, ploidy, burn, thr], False)
+        case = {"family": "assemble", "n_base": 0, "chains": n_chains, "steps": n_steps, "ploidy": ploidy, "burn": burn, "threshold": thr}
+        try:
+            t = GenotypeMultiTrace(np.zeros((n_chains, n_steps, ploidy, 0), dtype=np.int8), np.full((n_chains, n_steps), np.nan)).burn(burn)
+            post = t.posterior()
+            sup = post.mode_genotype_support()
+            g, p = sup.mode_genotype()
+            haps, fr, oc = post.allele_frequencies(dosage=True)
+            _, fr1, _ = post.allele_frequencies(dosage=False)
+            flag = int(t.replicate_incongruence(thr))
+            ok = (t.genotypes.shape == (n_chains, n_steps - burn, ploidy, 0) and post.genotypes.shape == (1, ploidy, 0)
+                  and [float(x) for x in post.probabilities] == [1.0] and float(post.mode()[1]) == 1.0
+                  and float(sup.probabilities.sum()) == 1.0 and float(p) == 1.0 and np.shape(g) == (ploidy, 0)
+                  and haps.shape == (1, 0) and [float(x) for x in fr] == [float(ploidy)] and [float(x) for x in fr1] == [1.0]
+                  and [float(x) for x in oc] == [1.0] and flag == 0)
+        except Exception as e:   # noqa: BLE001
+            chk.violation(f"the implementation raised {type(e).__name__} on a trace without variable positions", {**case, "error": repr(e)[:300]},
+                          "C14/assemble/nobase-raises")
+            continue
+        if not ok:
+            chk.violation("trace without variable positions: the summaries are not those of the one-point distribution "
+                          "(posterior {(): 1}, mode / support probability 1, allele frequency 1, incongruence 0)", case, "C14/assemble/nobase")
+
+
+def run_relabel_summaries(chk, r, n_cases, Trace):
+    """every summary of a relabelled trace (strictly increasing labels, as `np.where(~mask)[0]` gives them, up to allele numbers
+    above 128) equals the summary of the relabelled rows computed independently"""
+    for _ in range(n_cases):
+        n_chains, n_steps, ploidy = r.randint(1, 3), r.choice([2, 4, 8, 16, 20]), r.choice([1, 2, 3, 4, 6])
+        k = r.randint(1, 5)
+        hi = r.choice([12, 12, 70, 140, 200])
+        labels = sorted(r.sample(range(hi), k))
+        if hi > 12 and r.random() < 0.7:
+            labels[-1] = hi - 1
+        n_new = max(labels) + 1 + r.choice([0, 0, 1, 3])
+        if ploidy >= 4 and n_new > 40:
+            n_new = max(labels) + 1          # keep the G-ordered array small enough to allocate quickly
+        if math.comb(n_new + ploidy - 1, ploidy) > 3_000_000:
+            ploidy = 2
+        chains = [[sorted(g) for g in ch] for ch in gen_steps(r, n_chains, n_steps, ploidy, k)]
+        burn = r.choice([0, 0, n_steps // 2, n_steps - 1])
+        thr = r.choice([0.6, 0.5, 0.3])
+        arr = np.array(chains, dtype=r.choice([np.int8, np.int16, np.int64]))
+        new_rows = [[tuple(labels[a] for a in g) for g in ch] for ch in chains]
+        case = {"family": "call", "op": "relabel+summaries", "chains": chains, "labels": labels, "n_allele": n_new, "burn": burn, "threshold": thr}
+        chk.count("relabel-summaries"); chk.count("relabel-summaries:labels>=128" if labels[-1] >= 128 else "relabel-summaries:labels<128")
+        chk.case(["relabel-summaries", chains, labels, n_new, burn, thr], k >= 2)
+        try:
+            t0 = Trace(arr, np.zeros(arr.shape[:2]), k).burn(burn)
+            t2 = t0.relabel(np.array(labels), n_allele=n_new)
+            post = t2.posterior()
+            g2, p2, spm = post.mode(genotype_support=True)
+            ga = post.as_array(n_new)
+            f0, f2 = int(t0.replicate_incongruence(thr)), int(t2.replicate_incongruence(thr))
+            fr, co, oc = t2.posterior_frequencies()
+        except Exception as e:   # noqa: BLE001
+            chk.violation(f"the implementation raised {type(e).__name__} on a relabelled trace", {**case, "error": repr(e)[:300]}, "C14/call/relabel-raises")
+            continue
+        canon = lambda g: tuple(sorted(g))
+        cnt, n = empirical(new_rows, burn, canon)
+        expected = {g: Fraction(c, n) for g, c in cnt.items()}
+        tot = support_totals(cnt, n)
+        stops, smax, smargin = top_keys(tot)
+        g2 = tuple(int(x) for x in g2)
+        key = frozenset(g2)
+        inside = {g: p for g, p in expected.items() if frozenset(g) == key}
+        ok_mode = bool(inside) and (key in stops or smargin) and abs(float(spm) - float(tot[key])) <= 1e-9 \
+            and g2 in top_keys(inside)[0] and exact_eq(p2, top_keys(inside)[1])
+        if not ok_mode:
+            chk.violation("relabelled trace: mode(genotype_support=True) is not the most probable genotype of a support of maximal total probability",
+                          {**case, "impl": [g2, float(p2), float(spm)], "expected_support_totals": {str(sorted(k_)): str(v) for k_, v in tot.items()}},
+                          "C14/call/relabel-mode")
+        size = math.comb(n_new + ploidy - 1, ploidy)
+        exp_sparse = {vcf_index(g): p for g, p in expected.items()}
+        nz = [int(i) for i in np.flatnonzero(ga)]
+        if len(ga) != size or set(nz) != set(exp_sparse) or any(not exact_eq(ga[i], exp_sparse[i]) for i in nz):
+            chk.violation("relabelled trace: as_array(n_allele of the record) is not P(g) at the VCF index of g and 0 elsewhere",
+                          {**case, "impl_nonzero": {i: float(ga[i]) for i in nz[:40]}, "expected": {k_: str(v) for k_, v in exp_sparse.items()}},
+                          "C14/call/relabel-as-array")
+        if f0 != f2:
+            chk.violation("replicate_incongruence changes under a strictly increasing relabelling", {**case, "before": f0, "after": f2},
+                          "C14/call/relabel-incongruence")
+        allowed = documented_flags(new_rows, burn, Fraction(thr), ploidy, canon, "call", pow2(n_steps - burn) and dyadic(thr))
+        if allowed is not None and f2 not in allowed:
+            chk.violation("relabelled trace: replicate_incongruence differs from the documented meaning", {**case, "impl": f2, "documented": sorted(allowed)},
+                          "C14/call/relabel-incongruence")
+        exp_c = [Fraction(sum(g.count(a) for ch in new_rows for g in ch[burn:]), n) for a in range(n_new)]
+        exp_o = [Fraction(sum(1 for ch in new_rows for g in ch[burn:] if a in g), n) for a in range(n_new)]
+        if len(fr) != n_new or any(not exact_eq(co[a], exp_c[a]) or not exact_eq(oc[a], exp_o[a]) or not C.close(float(fr[a]), float(exp_c[a] / ploidy))
+                                   for a in range(n_new)):
+            chk.violation("relabelled trace: posterior_frequencies is not (mean count / ploidy, mean count, occurrence) per allele of the record",
+                          case, "C14/call/relabel-frequencies")
+
+
+def run_ped_wide(chk, r, n_cases, PedTrace):
+    """pedigree traces with up to 9 samples of ploidy 1..8, allele numbers up to 200 in every integer width that holds them, followed
+    through individual(): the per-sample trace must be the sample's columns, and its summaries those of the sample's rows"""
+    for _ in range(n_cases):
+        n_chains, n_steps, n_samples = r.randint(1, 3), r.choice([1, 2, 5, 12]), r.randint(1, 9)
+        ploidies = [r.choice([1, 2, 2, 3, 4, 4, 6, 8]) for _ in range(n_samples)]
+        mp = max(ploidies)
+        n_allele = r.choice([3, 5, 70, 140, 200])
+        k = r.randint(2, 4)
+        used = sorted(r.sample(range(n_allele), min(k, n_allele)))
+        if n_allele > 5 and r.random() < 0.7:
+            used[-1] = n_allele - 1
+        tr = [[[sorted(r.choice(used) for _ in range(p)) + [-1] * (mp - p) for p in ploidies] for _ in range(n_steps)] for _ in range(n_chains)]
+        dt = r.choice([np.int8, np.int16, np.int32, np.int64] if n_allele <= 127 else [np.int16, np.int32, np.int64])
+        arr = np.array(tr, dtype=dt)
+        idx = r.randrange(n_samples)
+        burn = r.randrange(n_steps)
+        p = ploidies[idx]
+        chk.count("pedigree-wide"); chk.count(f"pedigree-wide:samples={'<=4' if n_samples <= 4 else '5-9'}")
+        chk.count("pedigree-wide:alleles>=128" if used[-1] >= 128 else "pedigree-wide:alleles<128")
+        chk.case(["ped-wide", tr, idx, burn, str(dt)], len(set(ploidies)) > 1 and n_samples > 4)
+        case = {"family": "pedigree", "trace": tr if n_steps * n_samples <= 40 else "large", "index": idx, "ploidies": ploidies, "burn": burn,
+                "n_allele": n_allele, "dtype": np.dtype(dt).name}
+        try:
+            ind = PedTrace(arr, n_allele=n_allele).burn(burn).individual(idx)
+            post = ind.posterior()
+            fr, co, oc = ind.posterior_frequencies()
+            g2, p2, spm = post.mode(genotype_support=True)
+        except Exception as e:   # noqa: BLE001
+            chk.violation(f"the implementation raised {type(e).__name__} on a pedigree trace", {**case, "error": repr(e)[:300]}, "C14/pedigree/raises")
+            continue
+        rows = [[tuple(st[idx][:p]) for st in ch] for ch in tr]
+        want = np.array([[list(g) for g in ch[burn:]] for ch in rows])
+        if ind.genotypes.shape != want.shape or not np.array_equal(np.asarray(ind.genotypes, dtype=np.int64), want) or int(ind.n_allele) != n_allele:
+            chk.violation("burn(n).individual(i) is not the sample's ploidy columns of the steps after the burn-in",
+                          {**case, "impl_shape": list(ind.genotypes.shape), "expected_shape": list(want.shape)}, "C14/pedigree/individual")
+            continue
+        cnt, n = empirical(rows, burn, lambda g: tuple(sorted(g)))
+        expected = {g: Fraction(c, n) for g, c in cnt.items()}
+        d_impl = {tuple(int(x) for x in g): float(q) for g, q in zip(post.genotypes, post.probabilities)}
+        if set(d_impl) != set(expected) or any(not exact_eq(d_impl[g], expected[g]) for g in expected):
+            chk.violation("pedigree individual: posterior is not the empirical distribution of the sample's retained rows", {**case, "impl": str(d_impl)},
+                          "C14/pedigree/posterior")
+        tot = support_totals(cnt, n)
+        key = frozenset(int(x) for x in g2)
+        if key not in tot or not (abs(float(spm) - float(tot[key])) <= 1e-9) or \
+                (key not in top_keys(tot)[0] and not top_keys(tot)[2]):
+            chk.violation("pedigree individual: support probability / mode support differ from the sample's retained rows",
+                          {**case, "impl": [[int(x) for x in g2], float(p2), float(spm)]}, "C14/pedigree/mode")
+        exp_c = {a: Fraction(sum(g.count(a) for ch in rows for g in ch[burn:]), n) for a in used}
+        if len(fr) != n_allele or any(not exact_eq(co[a], exp_c[a]) for a in used) or not C.close(float(np.sum(co)), float(p)):
+            chk.violation("pedigree individual: posterior allele counts differ from the sample's retained rows", case, "C14/pedigree/frequencies")
 
 
 def structured_supports(ploidy):
@@ -975,12 +1161,13 @@ def check_program_sample(chk, program, case, chains, burn, thr, ploidy, kind, go
                           {**case, "text_MCI": t_mci, "documented": sorted(allowed)}, sig + "text-MCI")
 
 
-def program_runs(chk, r, S, ds, work, program, base_argv, n_runs, in_recs=None, want_patterns=None):
+def program_runs(chk, r, S, ds, work, program, base_argv, n_runs, k0=0):
     """run one program `n_runs` times with varying burn-in / chains / threshold / synthetic traces and compare"""
     combos = [(40, 39, 3), (40, 10, 3), (40, 0, 1), (40, 30, 2), (40, 39, 2), (40, 10, 1), (64, 32, 3), (40, 0, 3)]
-    for k in range(n_runs):
+    pats = PATTERNS + (None,)
+    for k in range(k0, k0 + n_runs):
         steps, burn, chains = combos[k % len(combos)]
-        pattern = (want_patterns or (PATTERNS + (None,)))[k % len(want_patterns or (PATTERNS + (None,)))]
+        pattern = pats[(k + k // len(combos)) % len(pats)]
         thr = [0.6, 0.3, 0.9, 0.5][k % 4]
         rep = ["AFP", "ACP", "AOP"] if k % 2 == 0 else (["GP"] if k % 4 == 1 else [])
         argv = base_argv + ["--mcmc-steps", str(steps), "--mcmc-burn", str(burn), "--mcmc-chains", str(chains),
@@ -1128,11 +1315,12 @@ def cli_part(chk, r, tier):
             pf_text, _ = add_prior_field(sub, out, "mixed")
             hap_gz = S.bgzip_tabix_vcf(S.write_text(os.path.join(work, f"hap{d}.vcf"), pf_text))
             base = ["--bam", *ds.bams, "--ploidy", ds.ploidy_file, "--haplotypes", hap_gz]
-            for prior in ([], ["--prior-frequencies", "PF"]):
-                program_runs(chk, r, S, ds, work, "call", ["mchap", "call", *base, *prior], n_call // 2)
+            for j, prior in enumerate(([], ["--prior-frequencies", "PF"])):
+                program_runs(chk, r, S, ds, work, "call", ["mchap", "call", *base, *prior], n_call // 2, k0=j * (n_call // 2))
                 ped, tau = pedigree_file(sub, ds, work, f"c14_{d}")
                 program_runs(chk, r, S, ds, work, "call-pedigree",
-                             ["mchap", "call-pedigree", *base, "--sample-parents", ped, "--gamete-ploidy", tau, *prior], n_ped // 2)
+                             ["mchap", "call-pedigree", *base, "--sample-parents", ped, "--gamete-ploidy", tau, *prior], n_ped // 2,
+                             k0=j * (n_ped // 2) + 1)
     finally:
         shutil.rmtree(work, ignore_errors=True)
 
@@ -1206,8 +1394,51 @@ def run(tier, replay=None):
         burns = sorted({0, n_steps // 2, max(0, n_steps - 1)})
         run_call_trace(chk, drv, r, chains, n_allele, ploidy, burns, True, "large-panel", GenotypeAllelesMultiTrace)
 
+    # ---------------- call family, large panels at ploidy 3-4 (alleles >= 64 and >= 128; the model sees rank-compressed alleles)
+    r4 = C.rng(PROP + ":large-panel-polyploid")
+    for i in range({"warm": 2, "quick": 10, "thorough": 60}[tier]):
+        n_chains, n_steps, _p = gen_shape(r4, tier)
+        ploidy = 3 if i % 2 == 0 else 4
+        k = r4.randint(2, 5)
+        n_allele = [70, 140, 200][(i // 2) % 3] if ploidy == 3 else [133, 70, 100][(i // 2) % 3]
+        lo = 64 if n_allele < 128 else 128
+        amap = sorted(r4.sample(range(lo, n_allele), k)) if i % 5 else sorted(r4.sample(range(n_allele), k - 1) + [n_allele - 1])
+        amap = sorted(set(amap))
+        chains = [[sorted(amap[a] for a in g) for g in ch] for ch in gen_steps(r4, n_chains, n_steps, ploidy, len(amap))]
+        burns = sorted({0, n_steps // 2, max(0, n_steps - 1)})
+        chk.count(f"call:large-panel ploidy={ploidy} max-allele>={128 if amap[-1] >= 128 else 64}")
+        run_call_trace(chk, drv, r4, chains, n_allele, ploidy, burns, True, "large-panel-polyploid", GenotypeAllelesMultiTrace, compress=True)
+
+    # ---------------- long traces: one genotype repeated far more than 255 times (both families)
+    r2 = C.rng(PROP + ":long")
+    for i in range({"warm": 1, "quick": 3, "thorough": 12}[tier]):
+        n_chains, n_steps, ploidy = 1 + i % 2, r2.choice([700, 600, 1100]), r2.choice([2, 3, 4])
+        k = r2.randint(2, 4)
+        dom = [r2.randrange(k) for _ in range(ploidy)]
+        chains = []
+        for c in range(n_chains):
+            ch = []
+            for _ in range(n_steps):
+                g = list(dom)
+                if r2.random() < 0.08:
+                    g[r2.randrange(ploidy)] = r2.randrange(k)
+                r2.shuffle(g)
+                ch.append(g)
+            chains.append(ch)
+        top = max(Counter(tuple(sorted(g)) for ch in chains for g in ch).values())
+        chk.count("long-trace: most frequent genotype repeats > 255 times" if top > 255 else "long-trace: <= 255 repeats")
+        burns = [0, n_steps - 300, n_steps - 257, n_steps - 1]
+        pool = gen_pool(r2, 2, 3, k)
+        if len(pool) == k:
+            run_asm_trace(chk, drv, r2, chains, pool, ploidy, 2, burns, "long", GenotypeMultiTrace, thr_override=[0.6])
+        run_call_trace(chk, drv, r2, [[sorted(g) for g in ch] for ch in chains], k + 1, ploidy, burns, True, "long", GenotypeAllelesMultiTrace,
+                       thr_override=[0.6])
+
+    run_asm_nobase(chk, C.rng(PROP + ":nobase"), {"warm": 2, "quick": 12, "thorough": 60}[tier], GenotypeMultiTrace)
     run_relabel(chk, drv, r, n_small, GenotypeAllelesMultiTrace)
+    run_relabel_summaries(chk, C.rng(PROP + ":relabel-summaries"), n_small, GenotypeAllelesMultiTrace)
     run_ped(chk, drv, r, n_small, PedigreeAllelesMultiTrace)
+    run_ped_wide(chk, C.rng(PROP + ":ped-wide"), n_small, PedigreeAllelesMultiTrace)
     if tier != "warm":
         sampler_sorted_oracle(chk, r)
     cli_part(chk, C.rng(PROP + ":cli"), tier)
